@@ -459,6 +459,35 @@ def straight_line(fd, name, tables=(), skip_memcpy_into=None, param_names=None):
         name, " ".join("(%s : Z)" % p for p in params), body, ret)
 
 
+
+def fastpath_ops(fd):
+    """the two assignments d = d <op> TABLE[idx] in parse_double_fast: (branch, op, table)"""
+    res = []
+    for x in walk(body_of(fd)):
+        if x.get("kind") == "IfStmt":
+            cond = kids(x)[0]
+            if refs(cond) == {"exponent"} and cond.get("kind") == "BinaryOperator" and \
+                    cond.get("opcode") == "<" and len(kids(x)) == 3:
+                for branch, blk in (("neg", kids(x)[1]), ("pos", kids(x)[2])):
+                    for y in walk(blk):
+                        if y.get("kind") == "BinaryOperator" and y.get("opcode") == "=":
+                            l, r = kids(y)
+                            if refs(l) == {"d"}:
+                                rr = r
+                                while rr.get("kind") in ("ImplicitCastExpr", "ParenExpr"):
+                                    rr = kids(rr)[-1]
+                                if rr.get("kind") != "BinaryOperator":
+                                    raise TranslateError("fast path: unexpected rhs")
+                                tabs = [z["referencedDecl"]["name"] for z in walk(rr)
+                                        if z.get("kind") == "DeclRefExpr" and
+                                        z["referencedDecl"]["name"].startswith("POWER_OF_TEN")]
+                                if len(tabs) != 1:
+                                    raise TranslateError("fast path: table not identified")
+                                res.append((branch, rr["opcode"], tabs[0]))
+    if sorted(b for b, _, _ in res) != ["neg", "pos"]:
+        raise TranslateError("fast path: expected one assignment per sign of the exponent")
+    return res
+
 # ----------------------------------------------------------------------------- probes
 PROBE_COMMON = r'''
 #include <stdio.h>
@@ -549,11 +578,11 @@ def probes_for(cfg):
     out.update(probe(cfg, ["edn.c"], b))
     b = P_arr("DIGIT_VALUES", "DIGIT_VALUES[i]", 256)
     b += P_int("POW10_POS_LEN", "sizeof(POWER_OF_TEN_POSITIVE)/sizeof(double)")
-    b += P_int("POW10_NEG_LEN", "sizeof(POWER_OF_TEN_NEGATIVE)/sizeof(double)")
     b += P_arr_u64("POW10_POS_BITS", "POWER_OF_TEN_POSITIVE[i]",
                    "(int)(sizeof(POWER_OF_TEN_POSITIVE)/sizeof(double))")
-    b += P_arr_u64("POW10_NEG_BITS", "POWER_OF_TEN_NEGATIVE[i]",
-                   "(int)(sizeof(POWER_OF_TEN_NEGATIVE)/sizeof(double))")
+    if "POWER_OF_TEN_NEGATIVE" in open(os.path.join(REPO, "src", "number.c")).read():
+        b += P_arr_u64("POW10_NEG_BITS", "POWER_OF_TEN_NEGATIVE[i]",
+                       "(int)(sizeof(POWER_OF_TEN_NEGATIVE)/sizeof(double))")
     out.update(probe(cfg, ["number.c"], b))
     b = P_int("LINEAR_THRESHOLD", "LINEAR_THRESHOLD") + P_int("SORTED_THRESHOLD", "SORTED_THRESHOLD")
     b += P_int("sizeof_hash_entry", "sizeof(hash_entry_t)")
@@ -670,6 +699,9 @@ def gen_common(P, A):
     o = [HEADER % "src/*.c, src/edn_internal.h, include/edn.h (flag-independent items)"]
     for t in ("DELIMITER_TABLE", "DIGIT_VALUES"):
         o.append("Definition %s : list Z :=\n  %s.\n" % (t, zlist(P[t])))
+    if "POW10_NEG_BITS" not in P:
+        P = dict(P)
+        P["POW10_NEG_BITS"] = []
     for t in ("POW10_POS_BITS", "POW10_NEG_BITS"):
         o.append("(* IEEE-754 bit patterns of the compiled table entries *)\n"
                  "Definition %s : list Z :=\n  %s.\n" % (t, zlist([int(x) for x in P[t]])))
@@ -752,6 +784,10 @@ def gen_common(P, A):
     o.append("Definition fnv_literals_hash_internal : list Z := %s.\n" % zlist(big))
     o.append("Definition fnv_literals_hash_tag : list Z := %s.\n" % zlist(big2))
     o.append("Definition fnv_literals_hash_null : list Z := %s.\n" % zlist(big3))
+    for branch, op, tab in fastpath_ops(A[("number.c", "parse_double_fast")]):
+        o.append('Definition fastpath_%s_op : string := "%s".\n' % (branch, op))
+        o.append('Definition fastpath_%s_table : list Z := %s.\n' % (
+            branch, "POW10_POS_BITS" if tab == "POWER_OF_TEN_POSITIVE" else "POW10_NEG_BITS"))
     # fast-path constants of parse_double_fast / parse_double_from_buffer
     o.append("Definition fastpath_literals : list Z := %s.\n" % zlist(
         sorted(set(int_literals(A[("number.c", "parse_double_fast")])))))
